@@ -61,9 +61,20 @@ func parseDump(s string) []gInfo {
 }
 
 func busy(g gInfo) bool {
+	top := ""
+	if lines := strings.SplitN(g.stack, "\n", 3); len(lines) > 1 {
+		top = lines[1]
+	}
 	switch {
-	case g.status == "running", g.status == "runnable", g.status == "syscall", g.status == "preempted",
-		g.status == "copystack", strings.HasPrefix(g.status, "GC "):
+	case strings.HasPrefix(g.status, "running"), strings.HasPrefix(g.status, "runnable"), strings.HasPrefix(g.status, "syscall"),
+		strings.HasPrefix(g.status, "preempted"), strings.HasPrefix(g.status, "copystack"), strings.HasPrefix(g.status, "GC "),
+		strings.HasPrefix(g.status, "waiting"), strings.HasPrefix(g.status, "idle"), strings.HasPrefix(g.status, "dead"):
+		// (prefix: the runtime appends " (scan)" while the collector looks at the goroutine)
+		return true
+	case strings.HasPrefix(g.status, "semacquire") && !strings.HasPrefix(top, "sync."):
+		// blocked on a semaphore of the runtime itself (a goroutine that wants to start a GC cycle waits
+		// for the world semaphore this very dump is holding): not a logical wait, it goes on at once.
+		// Waits of the program (WaitGroup, Mutex, Cond) have a sync.* function on top.
 		return true
 	case g.status == "sleep":
 		// time.Sleep inside the driver (fillingStopped's back-off, reconnection policy): will wake by itself
